@@ -26,6 +26,14 @@ def main(tier, rep):
     # with ignore_exc a failed read is reported as a miss: the connection it failed on must not stay in use either
     reads = [(op, nrs) for op, nrs in L.ALL_OPS if op in L.READ_OPS or op == "stats"]
     progs += L.gen_fault_programs(L.KINDS, reads, tier, ignore_exc=True, seed=common.seed() + 5, quick_stride=2)
+    # a call refused for its key sends nothing, so it leaves nothing to read either
+    for kind in L.KINDS:
+        for i, iop in enumerate(sorted(L.ILLEGAL_KEY_OPS)):
+            for fi, fu in enumerate(L.FOLLOWUPS):
+                for ign in (False, True):
+                    steps = [("call", "set", False, None, "all"), ("call", iop, None, None, L.SEGS[(i + fi) % 3]), ("tick", 1)]
+                    steps += [("call", f[0], f[1], None, L.SEGS[(i + fi + 1) % 3]) for f in fu if L.has_op(kind, f[0])]
+                    progs.append((L.Cfg(kind=kind, ignore_exc=ign), steps))
     traces = [L.run_program(cfg, steps) for cfg, steps in progs]
     L.validate(rep, traces, relevant, PROP)
     # code -> spec on executions the harness did not design: the repository's own integration tests
